@@ -32,7 +32,12 @@ Record config : Type := Cfg {
   out : list (pid * string)       (* `> label` lines, most recent first, with the printing process *)
 }.
 
-Inductive exec_mode : Type := Async | Sync.
+(* Async = NORMAL_ASYNC, Sync = NORMAL_SYNC, NP = NON_POLARIZED_SYNC (the CLI's --sync): every name
+   also carries a control channel (identified here with the same channel id), forwards hand their
+   providers over through it, there are no polarities, no FWD/GC data messages, and drop does not
+   reclaim anything *)
+Inductive exec_mode : Type := Async | Sync | NP.
+Definition is_np (md : exec_mode) : bool := match md with NP => true | _ => false end.
 
 (* run-time errors: re.error / re.errorf (which panic), nil dereference, send on closed channel *)
 Definition rt_err := string.
@@ -50,6 +55,8 @@ Inductive action : Type :=
 | AInternal                              (* cut, call, drop, split, print *)
 | ASend (c : cid) (m : msg)              (* send, then the goroutine ends *)
 | ARecv (c : cid)                        (* blocking receive *)
+| ANever                                 (* send / receive on a nil channel: blocks forever *)
+| ACtrl (c : cid) (provs : list name)    (* NP: forward request offered on the control channel of c *)
 | AErr (e : rt_err).
 
 Definition prov0 (p : proc) : option name := head (pr_provs p).
@@ -74,7 +81,7 @@ Definition send_on (p : proc) (target : option cid) (m : msg) : action :=
   if multi p then ADup
   else match target with
        | Some c => ASend c m
-       | None => AErr "send on nil channel"       (* blocks forever in Go; unreachable for typed programs *)
+       | None => ANever       (* a send on a nil channel blocks forever (open programs only) *)
        end.
 Definition recv_on (p : proc) (target : option cid) : action :=
   match target with
@@ -86,7 +93,7 @@ Definition internal (p : proc) : action := if multi p then ADup else AInternal.
 Definition self_chan (p : proc) : option cid := match prov0 p with Some n => chan n | None => None end.
 Definition self_name_of (p : proc) : name := match prov0 p with Some n => n | None => zero_name end.
 
-Definition action_of (D : tenv) (p : proc) : action :=
+Definition action_of (md : exec_mode) (D : tenv) (p : proc) : action :=
   match pr_body0 p with
   | FSend to pay cont =>
     if is_self to then send_on p (self_chan p) (Msg RSND pay cont [] "")
@@ -111,18 +118,20 @@ Definition action_of (D : tenv) (p : proc) : action :=
     if is_self c then AErr "Found a drop on self" else internal p
   | FFwd to from droppable =>
     if negb (is_self to) then AErr "should forward on self"
+    else if is_np md then
+      match chan from with Some c => ACtrl c (pr_provs p) | None => ANever end
     else match fwd_polarity D from with
          | Ok Neg =>
            (* active: FWD (or GC) request sent on the client's channel; no DUP check in the Go code *)
            match chan from with
            | Some c => ASend c (if droppable then Msg RGC zero_name zero_name [] ""
                                 else Msg RFWD zero_name zero_name (pr_provs p) "")
-           | None => AErr "send on nil channel"
+           | None => ANever
            end
          | Ok Pos =>
            match chan from with
            | Some c => ARecv c
-           | None => AErr "receive on nil channel"
+           | None => ANever
            end
          | Ok UnknownPol => AErr "forward has an unknown polarity"
          | Panic w => AErr w
@@ -197,7 +206,7 @@ Definition on_message (self : pid) (p : proc) (m : msg) : eres :=
   | FRecv pay cont from k =>
     if is_self from then
       if rule_eqb (m_rule m) RRCV then
-        let b := subst cont (new_self (ident (m_c2 m))) (subst pay (m_c1 m) k) in
+        let b := subst cont (new_self "") (subst pay (m_c1 m) k) in
         EOk (no_eff (Continue (set_provs_body p [m_c2 m] b)))
       else EErr "expected RCV"
     else
@@ -208,7 +217,7 @@ Definition on_message (self : pid) (p : proc) (m : msg) : eres :=
     if is_self from then
       if rule_eqb (m_rule m) RBRA then
         match find_branch (m_label m) bs with
-        | Some (pay, k) => EOk (no_eff (Continue (set_provs_body p [m_c1 m] (subst pay (new_self (ident (m_c1 m))) k))))
+        | Some (pay, k) => EOk (no_eff (Continue (set_provs_body p [m_c1 m] (subst pay (new_self "") k))))
         | None => EErr "no matching labels found"
         end
       else EErr "expected BRA"
@@ -224,7 +233,7 @@ Definition on_message (self : pid) (p : proc) (m : msg) : eres :=
   | FShift x from k =>
     if is_self from then
       if rule_eqb (m_rule m) RSHF then
-        EOk (no_eff (Continue (set_provs_body p [m_c1 m] (subst x (new_self (ident (m_c1 m))) k))))
+        EOk (no_eff (Continue (set_provs_body p [m_c1 m] (subst x (new_self "") k))))
       else EErr "expected SHF"
     else
       if rule_eqb (m_rule m) RCST then EOk (no_eff (Continue (set_body p (subst x (m_c1 m) k)))) else EErr "expected CST"
@@ -268,7 +277,7 @@ Definition call_body (F : list fundef) (fn : string) (args : list name) : option
       if (na =? np)%nat then Some (sub_all (fn_params fd) args body)
       else if (na =? S np)%nat then
         match args with
-        | a0 :: rest => Some (sub_all (fn_params fd) rest (subst ep a0 body))
+        | a0 :: rest => Some (sub_all (fn_params fd) rest (subst ep (if is_self a0 then new_self "" else a0) body))
         | [] => None
         end
       else None
@@ -312,7 +321,7 @@ Definition dup_effect (self : pid) (p : proc) : eres :=
     EOk (Eff Finish (copies ++ fwds) (flat_map cids_of rows) [] []).
 
 (* the internal transitions *)
-Definition internal_effect (F : list fundef) (self : pid) (p : proc) : eres :=
+Definition internal_effect (md : exec_mode) (F : list fundef) (self : pid) (p : proc) : eres :=
   match pr_body0 p with
   | FNew x body k =>
     let '(c, p1) := fresh_chan self p (ident x) (nty x) (pol x) in
@@ -323,6 +332,7 @@ Definition internal_effect (F : list fundef) (self : pid) (p : proc) : eres :=
     | None => EErr "Function does not exist or could not be initialized"
     end
   | FDrop c k =>
+    if is_np md then EOk (no_eff (Continue (set_body p k))) else
     let '(s, ch, p1) := droppable_fwd self p c in
     EOk (Eff (Continue (set_body p1 k)) [s] [ch] [] [])
   | FSplit x y from k =>
@@ -363,7 +373,18 @@ Definition apply_effect (c : config) (self : pid) (p : proc) (e : effect) : conf
 (* ---------------------------------------------------------------- the step function *)
 Inductive choice : Type :=
 | Run (p : pid)                  (* one goroutine runs to its next blocking point *)
-| Rendezvous (s r : pid).        (* synchronous mode: a sender and a receiver meet on a channel *)
+| Rendezvous (s r : pid)         (* synchronous modes: a sender and a receiver meet on a channel *)
+| Control (f t : pid).           (* NP: forward f hands its providers to the provider t of its client channel *)
+
+(* NP: does the process look at its control channel at its next transition?  Every transition
+   helper does (select on Providers[0].ControlChannel), except a call (and a process that must
+   duplicate first). *)
+Definition polls_control (md : exec_mode) (D : tenv) (p : proc) : bool :=
+  match action_of md D p with
+  | ASend _ _ | ARecv _ | ACtrl _ _ => true
+  | AInternal => match pr_body0 p with FCall _ _ _ => false | _ => true end
+  | _ => false
+  end.
 
 Inductive sres : Type :=
 | SNotEnabled
@@ -386,10 +407,12 @@ Definition step (md : exec_mode) (D : tenv) (F : list fundef) (c : config) (ch :
     match procs c !! self with
     | None => SNotEnabled
     | Some p =>
-      match action_of D p with
+      match action_of md D p with
       | ADup => eff_step c self p (dup_effect self p)
-      | AInternal => eff_step c self p (internal_effect F self p)
+      | AInternal => eff_step c self p (internal_effect md F self p)
+      | ACtrl _ _ => SNotEnabled
       | AErr w => SError self w
+      | ANever => SNotEnabled
       | ASend k m =>
         match chans c !! k with
         | None => SError self "send on a channel that does not exist"
@@ -414,11 +437,11 @@ Definition step (md : exec_mode) (D : tenv) (F : list fundef) (c : config) (ch :
   | Rendezvous s r =>
     match md with
     | Async => SNotEnabled
-    | Sync =>
+    | _ =>
       if bool_decide (s = r) then SNotEnabled else
       match procs c !! s, procs c !! r with
       | Some ps, Some pr =>
-        match action_of D ps, action_of D pr with
+        match action_of md D ps, action_of md D pr with
         | ASend k m, ARecv k' =>
           if bool_decide (k = k') then
             match chans c !! k with
@@ -432,6 +455,21 @@ Definition step (md : exec_mode) (D : tenv) (F : list fundef) (c : config) (ch :
       | _, _ => SNotEnabled
       end
     end
+  | Control f t =>
+    if negb (is_np md) || bool_decide (f = t) then SNotEnabled else
+    match procs c !! f, procs c !! t with
+    | Some pf, Some pt =>
+      match action_of md D pf, self_chan pt with
+      | ACtrl k provs, Some k' =>
+        if bool_decide (k = k') && polls_control md D pt then
+          (* fwdhandleControlMessageNP: close the old providers, continue as the forwarder's *)
+          SStep (apply_effect (del_proc c f) t pt
+                   (Eff (Continue (set_provs_body pt provs (pr_body0 pt))) [] [] (cids_of (pr_provs pt)) []))
+        else SNotEnabled
+      | _, _ => SNotEnabled
+      end
+    | _, _ => SNotEnabled
+    end
   end.
 
 (* ---------------------------------------------------------------- schedules and runs *)
@@ -442,6 +480,8 @@ Definition candidates (md : exec_mode) (c : config) : list choice :=
   map Run ps ++ match md with
                 | Async => []
                 | Sync => flat_map (fun s => map (fun r => Rendezvous s r) ps) ps
+                | NP => flat_map (fun s => map (fun r => Rendezvous s r) ps) ps ++
+                        flat_map (fun s => map (fun r => Control s r) ps) ps
                 end.
 Definition enabled (md : exec_mode) (D : tenv) (F : list fundef) (c : config) : list choice :=
   filter (fun ch => match step md D F c ch with SNotEnabled => false | _ => true end) (candidates md c).
@@ -493,6 +533,51 @@ Definition init_config (p : program) : config :=
 Definition labels (c : config) : list string := rev (map snd (out c)).
 
 Inductive blocked : Type := BSend | BRecv | BOther.
-Definition live (D : tenv) (c : config) : list blocked :=
-  map (fun '(_, p) => match action_of D p with ASend _ _ => BSend | ARecv _ => BRecv | _ => BOther end)
+Definition live (md : exec_mode) (D : tenv) (c : config) : list blocked :=
+  map (fun '(_, p) => match action_of md D p with ASend _ _ => BSend | ARecv _ => BRecv | _ => BOther end)
       (map_to_list (procs c)).
+
+(* ---------------------------------------------------------------- event traces (for the causal order, C04) *)
+Record event : Type := Ev {
+  ev_pids : list pid;            (* the goroutine(s) taking the step *)
+  ev_send : option cid;          (* channel a message is put on *)
+  ev_recv : option cid;          (* channel a message is taken from *)
+  ev_labels : list string;       (* labels printed by the step *)
+  ev_spawned : list pid          (* processes created by the step *)
+}.
+
+Definition event_of (md : exec_mode) (D : tenv) (c c' : config) (ch : choice) : event :=
+  let spawned := filter (fun q => match procs c !! q with None => true | Some _ => false end) (pids c') in
+  let labs := rev (map snd (firstn (length (out c') - length (out c)) (out c'))) in
+  match ch with
+  | Run p =>
+    match procs c !! p with
+    | Some pr =>
+      match action_of md D pr with
+      | ASend k _ => Ev [p] (Some k) None labs spawned
+      | ARecv k => Ev [p] None (Some k) labs spawned
+      | _ => Ev [p] None None labs spawned
+      end
+    | None => Ev [p] None None labs spawned
+    end
+  | Rendezvous s r => Ev [s; r] None None labs spawned
+  | Control f t => Ev [f; t] None None labs spawned
+  end.
+
+Fixpoint exec_trace (fuel : nat) (pick : nat -> nat -> nat) (md : exec_mode) (D : tenv) (F : list fundef)
+         (c : config) (acc : list event) : run_res * list event :=
+  match fuel with
+  | O => (ROutOfFuel c, rev acc)
+  | S f =>
+    match enabled md D F c with
+    | [] => (RQuiescent c, rev acc)
+    | e0 :: es =>
+      let n := S (length es) in
+      let ch := nth (pick fuel n mod n) (e0 :: es) e0 in
+      match step md D F c ch with
+      | SStep c' => exec_trace f pick md D F c' (event_of md D c c' ch :: acc)
+      | SError who w => (RError c who w, rev acc)
+      | SNotEnabled => (RQuiescent c, rev acc)
+      end
+    end
+  end.
